@@ -25,7 +25,7 @@ From Coq Require Import List Arith NArith Bool.
 From MV.gen Require Import GenStart.
 From Coq.Strings Require Import Byte.
 From MV Require Import Bytes StartModel StartProofs StartPathModel StartPathProofs StartSearchModel StartSearchProofs.
-From MV Require Import StartFdModel StartFdProofs.
+From MV Require Import StartFdModel StartFdProofs StartLogModel StartLogProofs.
 Import ListNotations.
 
 (* For every number of processes and every interleaving of their start-up steps and SIGKILLs:
@@ -181,12 +181,22 @@ Print Assumptions C15_lock_call_shape.
 (* The lock is a property of a DESCRIPTOR: StartModel's lockfd stays open until CloseLock by construction.  In the
    process the descriptor table is explicit (StartFdModel: open = lowest free number, dup2 (x, n) closes n).  For every
    initial table (any of 0-2 closed at exec, anything else open) and anything opened before the lock, the start-up of
-   the CURRENT source (gen/GenStart.main_sanitizes_std_fds, fini_dup2_targets) ends daemonize_fini with the lock
+   the CURRENT source (gen/GenStart.main_sanitizes_std_fds, syslog_branch_resanitizes, fini_dup2_targets), with a log
+   file or with --syslog (where log_close_file () closes stderr after the first sanitize), ends daemonize_fini with the lock
    descriptor still the lock file and the socket descriptor still the socket. *)
-Theorem C15_lock_descriptor_survives_daemonize : forall t0 pre,
-  fds_intact (start_fds main_sanitizes_std_fds t0 pre) = true.
+Theorem C15_lock_descriptor_survives_daemonize : forall syslog t0 pre,
+  fds_intact (start_fds_mode main_sanitizes_std_fds syslog_branch_resanitizes syslog t0 pre) = true.
 Proof. exact current_start_keeps_fds. Qed.
 Print Assumptions C15_lock_descriptor_survives_daemonize.
+
+(* Finding F-C15-syslog-closes-stderr (repaired in /repo by the second sanitize_std_fds call): sanitized at the start,
+   but with --syslog log_close_file () closes stderr afterwards; with nothing kept open before the lock (no /dev/log)
+   the lock file gets descriptor 2 and daemonize_fini closes it. *)
+Theorem C15_syslog_drops_lock_refuted : exists t0 pre,
+  fds_intact (start_fds_mode true false true t0 pre) = false /\
+  lock_fd (start_fds_mode true false true t0 pre) = 2.
+Proof. exact syslog_start_loses_lock. Qed.
+Print Assumptions C15_syslog_drops_lock_refuted.
 
 (* Defect D6 (repaired in /repo by sanitize_std_fds): without that step, a start with descriptors 0-2 closed puts the
    lock file on descriptor 0 and daemonize_fini's dup2 of /dev/null closes it — the fcntl lock is dropped silently. *)
@@ -196,6 +206,23 @@ Theorem C15_closed_stdio_drops_lock_refuted : exists t0 pre,
   get (tab (start_fds false t0 pre)) (lock_fd (start_fds false t0 pre)) = Some Null.
 Proof. exact unsanitized_start_loses_lock. Qed.
 Print Assumptions C15_closed_stdio_drops_lock_refuted.
+
+(* The deployment mode: munged in the background with its own log file, each life inheriting the file the previous
+   one created.  open_logfile's own text, run by the fact generator, gives the mode it creates under a umask and the
+   permission bits it refuses on an existing file; daemonize_init's umask is translated from the text.  The created
+   mode follows the recipe (base mode without the umask's bits); for EVERY umask of the invoking shell the mode a
+   life creates is one the next life accepts; hence any number of lives under any umasks all start. *)
+Theorem C15_log_file_inherited :
+  log_recipe_holds = true /\
+  (forall inherited, log_accepts (log_created_mode inherited) = true) /\
+  (forall umasks, lives None umasks = true).
+Proof. exact (conj f_log_recipe (conj created_log_accepted all_lives_start)). Qed.
+Print Assumptions C15_log_file_inherited.
+
+(* non-vacuity of the above: a group-writable log file does keep the next life from starting *)
+Theorem C15_refused_log_blocks : exists m u, life_log (Some m) u = None.
+Proof. exact refused_log_blocks. Qed.
+Print Assumptions C15_refused_log_blocks.
 
 (* non-vacuity: the premises are satisfiable and the conclusions are not trivially true.
    (1) three racing starts, one interleaving, then the winner is killed and a fourth start serves;
